@@ -85,6 +85,19 @@ def parseSortOpts (s : String) : Option (Bool × Option Fn) :=
       | _ => none
   | _ => none
 
+def parseFn1 : String → Option Fn1
+  | "copy" => some .copy
+  | "dedup" => some .dedup
+  | _ => none
+
+def parseFn2 : String → Option Fn2
+  | "interleave" => some .interleave
+  | "firstpair" => some .firstPair
+  | "lastpair" => some .lastPair
+  | "takemin" => some .takeMin
+  | "union" => some .union
+  | _ => none
+
 /-- every variable of a history is let-bound to nil before the first step -/
 def lookup (env : List (String × Ref)) (name : String) : Option Ref :=
   match env.find? (fun p => p.1 = name) with
@@ -109,8 +122,12 @@ structure Step where
   kind : Kind
   place : Option String := none   -- variable reassigned by push / pop
 
-def parseStep (env : List (String × Ref)) (ws : List String) : Option Step :=
+def parseStep (h : Heap) (env : List (String × Ref)) (ws : List String) : Option Step :=
   let var := lookup env
+  let holds (x : String) (v : Int) : Bool :=
+    match (lookup env x).bind (fun r => contents h (stdFuel h) r) with
+    | some vs => vs.contains v
+    | none => false
   let nat (s : String) := s.toNat?
   let int (s : String) := s.toInt?
   match ws with
@@ -131,6 +148,18 @@ def parseStep (env : List (String × Ref)) (ws : List String) : Option Step :=
   | [t, "liststar2", v, x] => do some ⟨t, .cons (← int v) (← var x), .list, none⟩
   | [t, "mapcar2", x, y] => do some ⟨t, .mapcar2 (← var x) (← var y), .list, none⟩
   | [t, "concat", x, y] => do some ⟨t, .concat (← var x) (← var y), .list, none⟩
+  | [t, "fresh1", f, x] => do some ⟨t, .fresh1 (← parseFn1 f) (← var x), .list, none⟩
+  | [t, "fresh2", f, x, y] => do some ⟨t, .fresh2 (← parseFn2 f) (← var x) (← var y), .list, none⟩
+  | [t, "revappend", x, y] => do some ⟨t, .revappend (← var x) (← var y), .list, none⟩
+  -- (apply (lambda (&rest p) p) x): the &rest list may share with the spread list (CLHS 3.4.1.3)
+  | [t, "applyrest", x] => do some ⟨t, .alias (← var x), .list, none⟩
+  -- adjoin / pushnew: the list itself when the item is present, a cons onto it otherwise
+  | [t, "adjoin", v, x] => do
+      let v' ← int v
+      if holds x v' then some ⟨t, .alias (← var x), .list, none⟩ else some ⟨t, .cons v' (← var x), .list, none⟩
+  | [t, "pushnew", v, x] => do
+      let v' ← int v
+      if holds x v' then some ⟨t, .alias (← var x), .pushVar, some x⟩ else some ⟨t, .cons v' (← var x), .pushVar, some x⟩
   | [t, "butlast", n, x] => do some ⟨t, .butlast (← nat n) (← var x), .list, none⟩
   | [t, "subseq", s, e, x] => do
       let e' ← if e = "-" then some none else (nat e).map some
@@ -241,7 +270,7 @@ def loop (st : St) (toks : List String) (acc : List String) : String :=
   | s :: o :: rest =>
     match s.splitOn ";", o.splitOn ";" with
     | "S" :: sw, "O" :: _ :: ow =>
-      match parseStep st.env sw, parseObs ow with
+      match parseStep st.heap st.env sw, parseObs ow with
       | some stp, some obs =>
         let (st', reply, stop) :=
           if st.skipNext then ({ st with skipNext := false }, "err;e;-;-", false) else step st stp obs
